@@ -323,6 +323,12 @@ func (pc *packetConn) Read(b []byte) (n int, err error) {
 			// Connection is closed. Return EOF below.
 			done = true
 		case pkt := <-pc.readCh:
+			if pkt.n == 0 {
+				// An empty datagram is not the end of the client's stream
+				// (reading it from a bytes.Reader would report io.EOF).
+				udpBufPool.Put(pkt.pooledBuf)
+				continue
+			}
 			buf := bytes.NewReader(pkt.pooledBuf[:pkt.n])
 			n, err = buf.Read(b)
 			if buf.Len() == 0 {
